@@ -100,7 +100,7 @@ func genEdit(t *rapid.T) Edit {
 				e.Type = cfggen.Type{K: "set", E: &el}
 			}
 		}
-		e.Val = cfggen.WidenNumbers(t, cfggen.GenVal(t, e.Type))
+		e.Val = cfggen.WidenNumbers(t, cfggen.GenVal(t, e.Type), e.Type)
 		if e.Type.K == "string" && rapid.IntRange(0, 3).Draw(t, "rawstring") == 0 {
 			e.Val = cfggen.Str(rapid.StringN(0, 6, 24).Draw(t, "string"))
 		}
@@ -110,7 +110,7 @@ func genEdit(t *rapid.T) Edit {
 		for i := 0; i < n; i++ {
 			switch rapid.IntRange(0, 3).Draw(t, "stepkind") {
 			case 3:
-				n := cfggen.GenVal(t, cfggen.Type{K: "number"}).S
+				n := strings.TrimPrefix(cfggen.GenVal(t, cfggen.Type{K: "number"}).S, "-") // a negative key is not a literal in the syntax
 				e.Steps = append(e.Steps, TravStep{Num: &n})
 			case 0:
 				e.Steps = append(e.Steps, TravStep{Attr: rapid.SampledFrom([]string{"a", "foo", "with-dash", "é"}).Draw(t, "attr")})
@@ -376,6 +376,7 @@ type applied struct {
 	appendOpen string // an item was appended to a body whose last token is not a line end ("eof" / "one-line-block")
 	braceLine  bool   // an item was removed whose lead comments include the one ending the opening-brace line
 	nonPrint   bool   // a string with a non-printable rune was written (value or label)
+	f64quirk   bool   // a float64-precision number was written whose shortest decimal (math/big) is a different float64
 }
 
 // apply runs one edit on the writer body and on the model.
@@ -430,6 +431,9 @@ func (md *model) apply(e *Edit, wroot *hclwrite.Body, ap *applied) {
 		v := cfggen.Typed(e.Val, e.Type)
 		if containsNonPrintable(e.Val) {
 			ap.nonPrint = true
+		}
+		if cfggen.ShortestDecimalQuirk(e.Val) {
+			ap.f64quirk = true
 		}
 		wb.SetAttributeValue(name, v)
 		setAttr(name, it, &mAttr{kind: "value", val: v})
@@ -641,7 +645,7 @@ func compareBody(mb *mBody, ob *hclsyntax.Body, otoks []tk, path string) (string
 					}
 					got = cv
 				}
-				if !got.RawEquals(want) {
+				if !sameValue(got, want) {
 					return "set-value|wrong-value", fmt.Sprintf("%s/%s: reads back as %#v, was set to %#v", path, m.a.name, got, want)
 				}
 			case "traversal":
@@ -743,6 +747,9 @@ func checkB(c CaseB) *core.Violation {
 		}
 		if ap.braceLine {
 			return "edit|remove-first-item|takes-comment-ending-the-opening-brace-line"
+		}
+		if ap.f64quirk && strings.HasPrefix(sig, "edit|set-value|wrong-value") {
+			return "edit|set-value|wrong-value|float64-power-of-two-shortest-decimal"
 		}
 		return sig
 	}
